@@ -1004,6 +1004,18 @@ def _run_case(case, loop, rec, max_ops):
     stale_birth = [None]
     more_at_close = [None]
     line_taken, line_resumed, line_peak = [0], [False], [0]
+    # back-pressure: while the body is not over and the protocol still has its transport and parser, a reader above its
+    # high-water mark keeps the transport paused (the pause asked for when the mark was crossed stays until a read brings
+    # the buffer below low water) -- otherwise nothing stops the peer from growing the buffer
+    no_backpressure = [None]
+
+    def note_backpressure(tok):
+        pl, proto = p.payload, p.proto
+        if (no_backpressure[0] is None and pl._size > pl._high_water and not pl._eof and pl._exception is None
+                and proto.transport is not None and proto._parser is not None and not p.tr.paused):
+            no_backpressure[0] = (f"after {tok[:24]}: {pl._size} bytes buffered > high water {pl._high_water}, body not finished, "
+                                  f"transport NOT paused (protocol._reading_paused={proto._reading_paused}, parser has pending "
+                                  f"input={bool(proto._parser._payload_has_more_data)})")
     early_empty = [None]
 
     def note_stale():
@@ -1069,6 +1081,7 @@ def _run_case(case, loop, rec, max_ops):
         if k != "X" and not closed:
             note_up()
             note_stale()
+        note_backpressure(toks[-1])
         if k in ("R", "A"):
             if out.startswith("d="):
                 d = unhx(out[2:])
@@ -1158,7 +1171,7 @@ def _run_case(case, loop, rec, max_ops):
             "exc_pending": None if pstate._exception is None else err_name(pstate._exception),
             "stale_class": stale_birth[0] or "no-surviving-pause-flag-seen", "more_at_close": more_at_close[0],
             "parked_with_exc": p.parked_with_exc, "runaway": runaway[0], "compression": getattr(p.msg, "compression", None),
-            "line_peak": line_peak[0], "early_empty": early_empty[0]}
+            "line_peak": line_peak[0], "early_empty": early_empty[0], "no_backpressure": no_backpressure[0]}
     return {"line": line, "impl": impl, "info": info}
 
 
@@ -1274,6 +1287,9 @@ def oracle(ctx, case, info):
                 pass    # readline() on a body whose next line is longer than max_size (= high water): LineTooLong is the contract
             else:
                 ctx.violation("C09/valid-body-rejected/" + final[1], c, f"valid complete body reported as {final[1]}")
+    # --- back-pressure must be on whenever the reader is above its high-water mark
+    if info.get("no_backpressure"):
+        ctx.violation("C09/memory/transport-reading-above-high-water", c, info["no_backpressure"])
     # --- server side: request.read()/post()/text()/json() with a client_max_size must keep the decoder capped and the flow
     #     control on: decoded bytes resident in the StreamReader stay within high water + one decode step of the RAISED limit
     #     max(client_max_size, read_bufsize), i.e. 3x -- whatever the compression ratio (413 comes after at most that much)
@@ -1576,6 +1592,28 @@ def probe_cases():
         out.append(dict(base, side="server", enc="gzip", limit=1024, framing="C", body=hx(body),
                         wire_segs=[hx(b"%x\r\n" % len(body) + body + b"\r\n0\r\n\r\n")], mode="req", cms=8192,
                         post=(api == "post"), reqapi=api, ops=[["D"], ["Q", 8192]], shape="text+probe-request-read"))
+    # (g) back-pressure across a re-entrant refill: the whole bomb arrives, the parser keeps decoder output pending; ONE
+    #     small read drains below low water (resume_reading -> data_received(b"") refills and pauses again from inside);
+    #     then the peer's further segments keep coming without the consumer reading: buffered stays within the bound
+    for enc in [e for e in ("gzip", "deflate", "zstd") if e in available_encodings()]:
+        for lim in (16, 1024):
+            payload = b"z" * (40 * lim)
+            body = compress(enc, payload) + (compress(enc, payload) if enc != "deflate" else b"")
+            k = max(2, len(body) // 8)
+            segs = [body[i:i + k] for i in range(0, len(body), k)]
+            for side in ("client", "server"):
+                for reads in ([["R", lim]], [["R", 2 * lim], ["R", lim]], [["A"]]):
+                    out.append(dict(base, side=side, enc=enc, limit=lim, framing="L", body=hx(body), wire_segs=[hx(x) for x in segs],
+                                    ops=[["D"]] * 3 + reads + [["D"]] * (len(segs) + 2), mode="lazy",
+                                    shape="bomb+probe-backpressure"))
+            # close-delimited, the peer closes as soon as its last segment is out: one wrongly admitted segment plus the
+            # feed_eof step of connection_lost must still fit the bound
+            for nseg in (4, 3):
+                k2 = -(-len(body) // nseg)
+                segs2 = [body[i:i + k2] for i in range(0, len(body), k2)]
+                out.append(dict(base, side="client", enc=enc, limit=lim, framing="E", body=hx(body), wire_segs=[hx(x) for x in segs2],
+                                ops=[["D"]] * (len(segs2) - 1) + [["A"], ["D"], ["A"]], mode="lazy", close_early=True,
+                                close_after_wire=True, shape="bomb+probe-backpressure"))
     # (b) concatenated members whose decoded sizes make the output budget of one decode step (max(limit, low_water)) run out
     #     exactly at a member boundary: 1024/512/2048 with limit 1024 (whole and 97-byte segments), 1025 x 3 with 97-byte segments
     encs = [e for e in ("deflate", "rawdeflate", "gzip", "zstd") if e in available_encodings()]
